@@ -134,6 +134,8 @@ func scenarioRangeE2E(c *vrun.Ctx) {
 				if resp.Err != "" || resp.Dropped {
 					c.SetCase(desc)
 					c.Violation("C08/e2e/416-retry/no-response", "the client received no well-formed response: "+resp.Err+" | "+desc, nil)
+					c.Violation("C07/e2e/416-retry/dropped-connection", "a Range request refused by the origin with 416 got no well-formed response (never a dropped connection): "+resp.Err+" | "+desc, nil)
+					c.Violation("C16/e2e/range/416-retry/no-response", "the client received no well-formed response: "+resp.Err+" | "+desc, nil)
 					continue
 				}
 				if len(reqs) == 0 {
